@@ -43,6 +43,8 @@ class ReplacementFrontend(ConstrainedFrontend):
         self._unsafe_replacement = False if unsafe_replacement is None else unsafe_replacement
         self._replacements = replacements or {}
         self._replacement_cache = replacement_cache or {}
+        # the replaced ASTs themselves, by hash (the hash of an AST is not the same in every process)
+        self._replaced_asts = {}
 
     def _blank_copy(self, c):
         super()._blank_copy(c)
@@ -54,6 +56,7 @@ class ReplacementFrontend(ConstrainedFrontend):
         c._unsafe_replacement = self._unsafe_replacement
         c._replacements = {}
         c._replacement_cache = {}
+        c._replaced_asts = {}
 
     def _copy(self, c):
         super()._copy(c)
@@ -61,6 +64,7 @@ class ReplacementFrontend(ConstrainedFrontend):
 
         c._replacements = dict(self._replacements)
         c._replacement_cache = dict(self._replacement_cache)
+        c._replaced_asts = dict(self._replaced_asts)
 
     #
     # Replacements
@@ -93,14 +97,17 @@ class ReplacementFrontend(ConstrainedFrontend):
 
         self._replacements[old.hash()] = new
         self._replacement_cache[old.hash()] = new
+        self._replaced_asts[old.hash()] = old
 
     def remove_replacements(self, old_entries):
         self._replacements = {k: v for k, v in self._replacements.items() if k not in old_entries}
         self._replacement_cache = dict(self._replacements)
+        self._replaced_asts = {k: v for k, v in self._replaced_asts.items() if k in self._replacements}
 
     def clear_replacements(self):
         self._replacements = {}
         self._replacement_cache = dict(self._replacements)
+        self._replaced_asts = {}
 
     def _replacement(self, old):
         if not isinstance(old, Base):
@@ -141,7 +148,9 @@ class ReplacementFrontend(ConstrainedFrontend):
             self._complex_auto_replace,
             self._auto_replace,
             self._replace_constraints,
-            self._replacements,
+            # keyed by AST hashes, which differ between processes for some ASTs (annotated, floating point): the
+            # replaced ASTs go along and the keys are recomputed on load
+            [(self._replaced_asts.get(k), k, v) for k, v in self._replacements.items()],
             self._actual_frontend,
             super().__getstate__(),
         )
@@ -153,12 +162,19 @@ class ReplacementFrontend(ConstrainedFrontend):
             self._complex_auto_replace,
             self._auto_replace,
             self._replace_constraints,
-            self._replacements,
+            replacements,
             self._actual_frontend,
             base_state,
         ) = s
 
         super().__setstate__(base_state)
+        self._replacements = {}
+        self._replaced_asts = {}
+        for old, k, new in replacements:
+            if old is not None:
+                k = old.hash()
+                self._replaced_asts[k] = old
+            self._replacements[k] = new
         self._replacement_cache = dict(self._replacements)
 
     #
